@@ -84,10 +84,11 @@ where
   I: Iterator,
 {
   fn next_back(&mut self) -> Option<Self::Item> {
-    let pos = unsafe { self.drain_end_.as_ptr().sub(1) };
-    if pos < self.drain_pos_.as_ptr() {
+    if self.drain_end_ <= self.drain_pos_ {
       return None;
     }
+
+    let pos = unsafe { self.drain_end_.as_ptr().sub(1) };
 
     let tmp = unsafe { core::ptr::read(pos) };
     self.drain_end_ = unsafe { core::ptr::NonNull::new_unchecked(pos) };
